@@ -43,8 +43,18 @@ def getLockPath(dirName, create=False):
         return dirName
 
 def takeLocks(cmdName, path, lockType, nolocks=False, ntry=10, verbose=0):
-    locks = []
+    """Lock the directories in path; return a list of locks for giveLocks
 
+    If a directory cannot be locked, the locks already taken on the directories before it are given up again
+    """
+    locks = []
+    try:
+        return _takeLocks(locks, cmdName, path, lockType, nolocks, ntry, verbose)
+    except BaseException:
+        giveLocks(locks, verbose)
+        raise
+
+def _takeLocks(locks, cmdName, path, lockType, nolocks, ntry, verbose):
     if hooks.config.site.lockDirectoryBase is None:
         if verbose > 2:
             print("Locking is disabled", file=utils.stdinfo)
